@@ -9,7 +9,7 @@ CHECKS = {
          "Exhaustive over schedules and event orders inside the scenario bounds; streaming excluded (C17)."),
  "C06": ("model_checking", "2.3, 5/C06", "stateless model checking (DPOR + sleep sets) of the slot protocol on the real Task.Execute / IncConcurrentTasks code: all multisets of CoresPerTask over k<=4 ready tasks, start/end events mutually dependent, invariant checked on every prefix of every event order; Go functions, shell commands, prepended launchers, streaming pairs (live children of real bash), oversize and zero-core tasks; timers (time.After) are environment events that may land at any point, constructs outside the validated dependency table (blocking select with a send case) are decided by the unreduced enumeration",
          "Every overlap configuration of the tasks is a distinct trace and is visited; bounds: k<=4 tasks, max<=3."),
- "C07": ("model_checking", "2.3, 5/C07", "stateless model checking (DPOR + sleep sets): deadlock freedom of token-by-token acquisition for all cores multisets; work conservation as reachability made mandatory (barrier inside the task bodies deadlocks if the library serialises); oversize CoresPerTask (also with maxConcurrentTasks = 0) rejected in every schedule; an outside actor creating a queued task's output at every possible moment",
+ "C07": ("model_checking", "2.3, 5/C07", "stateless model checking (DPOR + sleep sets): deadlock freedom of token-by-token acquisition for all cores multisets; work conservation as reachability made mandatory (barrier inside the task bodies deadlocks if the library serialises); oversize CoresPerTask (also with maxConcurrentTasks = 0) rejected in every schedule; an outside actor creating a queued task's output at every possible moment; two workflows in one program (each with its own slots) and a task whose body runs an inner workflow",
          "bounds: k<=4 tasks, max<=4."),
  "C08": ("model_checking", "2.3, 5/C08", "stateless model checking (DPOR + sleep sets): every completion order of parallel tasks is a schedule; a recorder process observes the out-port; sequence must equal the reference arrival order (per upstream through fan-in); multi-out-port tasks, two receivers, streaming out-ports, joined in-ports; environment deviations: a single injected I/O error at every file-system operation, a lagging file system (one look at an existing output answers ENOENT) under every schedule",
          "bounds: <= 3 items (4 in thorough), chains and fan-in."),
@@ -24,7 +24,7 @@ CHECKS.update({
          "recovery is a function of the disk state; kill = process kill; bounds as in C01."),
  "C09": ("fault_enumeration", "5/C09", "every choice of failing task x failure kind (genuine *exec.ExitError values at the exec seam; killed; missing output; unformable task) under every Mazurkiewicz trace of the concurrently running rest: exit != 0, no completion marker, failed outputs never final, no dependent task starts",
          "bounds: graphs G3/G4/G7/G8, <= 2 items (more in thorough)."),
- "C14": ("exploration", "5/C14", "small-scope exhaustive enumeration: all task identities over a small alphabet built with NewTask; all pairs compared by grouping on TempDir(); length boundary 180..262; every map-iteration order",
+ "C14": ("exploration", "5/C14", "small-scope exhaustive enumeration: all task identities over a small alphabet built with NewTask; all pairs compared by grouping on TempDir() (in-paths incl. a folder named like its parent: a/a/b, ../../a); length boundary 180..262; every map-iteration order",
          "exhaustive inside the alphabet only; no sampling of long random values (outside the technique)."),
  "C16": ("model_checking", "5/C16", "every single edge left unconnected (refused before any start event, every schedule); dangling out-ports drained; EVERY non-empty subset of processes as RunTo targets by name / regex / value: started processes = reference upstream closure over file and parameter edges, exactly once, C05 return predicate; schedules by DPOR + sleep sets",
          "bounds: graphs G3-G8/G11 with 1-2 items."),
@@ -39,7 +39,7 @@ CHECKS.update({
          "bounds: graphs G3/G7/G8/G14a (+G6/G6b thorough), <= 2 items."),
  "C12": ("model_checking", "5/C12", "race-instrumented build (maps + struct fields assigned after construction are visible memory accesses) explored by DPOR + sleep sets / delay bounding; happens-before monitor from synchronisation edges only; unordered conflicting accesses in any explored execution = race (both functions reported); package-level variables, calls on thread-unsafe library values and json.Marshal of a record (a read of the maps it holds) are accesses too; sync.Once / RWMutex / sync/atomic are modelled from the validated mutex",
          "dynamic happens-before: a race is reported only if some explored execution leaves the two accesses unordered; slice elements and loop conditions are not instrumented."),
- "C13": ("exploration", "5/C13", "small-scope exhaustive enumeration of a path grammar (5 prefixes x <= 2 (3) directory segments x 10 segment shapes incl. placeholder look-alikes, inputs, extra files) - 21k (248k) one-task workflows executed with REAL bash; token must be at exactly the declared path and nowhere else, input resolved from inside the temp dir, extras at the same relative location",
+ "C13": ("exploration", "5/C13", "small-scope exhaustive enumeration of a path grammar (5 prefixes x <= 2 (3) directory segments x 10 segment shapes incl. placeholder look-alikes, inputs, extra files) - 21k (248k) one-task workflows executed with REAL bash; token must be at exactly the declared path and nowhere else, input resolved from inside the temp dir, extras at the same relative location; a shard each under process names with '/', blanks and capitals",
          "single task: no interleaving to explore; kernel / bash observed, not scheduled."),
  "C15": ("exploration", "5/C15", "small-scope exhaustive enumeration of a pattern grammar (literals and {i:} {o:} {p:} {t:} placeholders with modifier chains of basename, dirname, %suffix, s/a/b/; single placeholders, all ordered pairs and triples; command patterns and SetOut patterns; missing-value cases; default output names under every map-iteration order and every single-component change) - 178k cases quick / 3.3M thorough - built through NewProc/SetOut/NewTask and compared with a reference written from the documentation",
          "the reference is silent where the documentation is (search string occurring twice, suffix equal to the whole value, dirname directly under /)."),
